@@ -24,7 +24,7 @@ Local Open Scope Z_scope.
 (* ---- the implementation's parse of the spec's tree: unary over an unparenthesised power ---- *)
 Fixpoint reparse (e : expr) : expr :=
   match e with
-  | ELit _ _ | ELitF _ _ | EVar _ => e
+  | ELit _ _ | ELitF _ _ | EVar _ | ESVar _ => e
   | EParen a => EParen (reparse a)
   | ENeg a => match reparse a with EPow x y => EPow (ENeg x) y | a' => ENeg a' end
   | ENot a => match reparse a with EPow x y => EPow (ENot x) y | a' => ENot a' end
@@ -100,6 +100,10 @@ Definition lit_code (eff : ty) (z : Z) : option (list instr) :=
   | TF _ => None      (* integer literal under a float hint: not modelled (needs float(z)) *)
   end.
 
+(* identifier.go emitZeroValue *)
+Definition zero_code (t : ty) : instr :=
+  match t with TI it => IConst (regw it) 0 | TF f => FConst f 0 end.
+
 Section Expr.
   Variable tys : list ty.
 
@@ -117,6 +121,12 @@ Section Expr.
         | TI _ => None
         end
     | EVar i => match nth_error tys i with Some t => Some ([LGet i], t) | None => None end
+    (* identifier.go emitStatefulLoad: every read of a stateful variable asks the host *)
+    | ESVar i =>
+        match nth_error tys i with
+        | Some t => Some ([IConst W32 (Z.of_nat i); zero_code t; CallLoad t (length tys)], t)
+        | None => None
+        end
     | EParen a => cexpr hint a
     | ENeg a =>
         match cexpr hint a with
@@ -295,6 +305,37 @@ Section Expr.
                                 range_incr t i stp ++ [Br 0])]], false)
         | _, _, _, _ => None
         end
+    (* variable.go compileStatefulVariable: id; init; stateful.load; local.set (no cast) *)
+    | SStateDecl i t e =>
+        match nth_error tys i with
+        | Some vt =>
+            match cexpr (Some vt) (reparse e) with
+            | Some (c, _) =>
+                Some (IConst W32 (Z.of_nat i) :: c ++ [CallLoad vt (length tys); LSet i], false)
+            | None => None
+            end
+        | None => None
+        end
+    (* assignment to a stateful variable: local.set; id; local.get; stateful.store *)
+    | SSAssign i e =>
+        match nth_error tys i with
+        | Some vt =>
+            match cexpr_to (Some vt) e vt with
+            | Some c => Some (c ++ [LSet i; IConst W32 (Z.of_nat i); LGet i; CallStore vt (length tys)], false)
+            | None => None
+            end
+        | None => None
+        end
+    | SSCompound i op e =>
+        match nth_error tys i with
+        | Some vt =>
+            match cexpr_to (Some vt) e vt, arith_op op vt with
+            | Some c, Some o =>
+                Some (LGet i :: c ++ [o; LSet i; IConst W32 (Z.of_nat i); LGet i; CallStore vt (length tys)], false)
+            | _, _ => None
+            end
+        | None => None
+        end
     | SBreak =>
         match lp with Some (bd, _) => Some ([Br (d - bd)], true) | None => None end
     | SContinue =>
@@ -330,7 +371,7 @@ End Expr.
    in order of appearance *)
 Fixpoint decls_stmt (s : stmt) : list (nat * ty) :=
   match s with
-  | SDecl i t _ => [(i, t)]
+  | SDecl i t _ | SStateDecl i t _ => [(i, t)]
   | SIf _ th el => decls_block th ++ decls_els el
   | SFor _ b | SLoop b => decls_block b
   | SRange i lim t _ _ step b =>
@@ -345,6 +386,20 @@ with decls_els (el : els) : list (nat * ty) :=
   | ElElse b => decls_block b
   | ElElif _ th el' => decls_block th ++ decls_els el'
   end.
+
+(* the stateful variables of a function *)
+Fixpoint svars_stmt (s : stmt) : list nat :=
+  match s with
+  | SStateDecl i _ _ => [i]
+  | SIf _ th el => svars_block th ++ svars_els el
+  | SFor _ b | SLoop b | SRange _ _ _ _ _ _ b => svars_block b
+  | _ => []
+  end
+with svars_block (b : block) : list nat :=
+  match b with BNil => [] | BCons s r => svars_stmt s ++ svars_block r end
+with svars_els (el : els) : list nat :=
+  match el with ElNone => [] | ElElse b => svars_block b | ElElif _ th el' => svars_block th ++ svars_els el' end.
+Definition state_vars (f : func) : list nat := svars_block (f_body f).
 
 (* the analyzer numbers locals after the parameters in order of appearance *)
 Definition locals_ok (f : func) : bool :=
